@@ -20,7 +20,7 @@ import re
 import sys
 from fractions import Fraction as F
 
-from ..core import Sub, fail, close, lit
+from ..core import WholeFloats, Sub, fail, close, lit
 
 STEP_LIMIT = 200000
 MAX_FAILS_PER_KIND = 5       # a block case reports at most this many failing inputs per kind of failure
@@ -1052,5 +1052,30 @@ class ComplexParts(Sub):
         return out
 
 
+class RoundWholeFloats(WholeFloats):
+    name = 'c17.whole_floats'
+    TEMPLATES = [
+        ('ROUND(1234.5678,{0})', [(2,), (0,), (-2,)]),
+        ('ROUNDUP(1234.5678,{0})', [(2,), (0,), (-2,)]),
+        ('ROUNDDOWN(1234.5678,{0})', [(2,), (0,), (-2,)]),
+        ('DEC2HEX({0})', [(10,), (255,), (-1,), (0,)]),
+        ('DEC2HEX({0},{1})', [(10, 4), (255, 2), (255, 1)]),
+        ('HEX2DEC(DEC2HEX({0}))', [(4095,), (-4096,)]),
+        ('BASE({0},{1})', [(255, 16), (5, 2), (35, 36)]),
+        ('BASE({0},{1},{2})', [(5, 2, 8), (255, 16, 1)]),
+        ('DECIMAL("11",{0})', [(2,), (16,), (36,)]),
+        ('DECIMAL(BASE({0},{1}),{1})', [(255, 16), (1000, 7)]),
+        ('ROMAN({0})', [(4,), (1999,), (3999,)]),
+        ('ROMAN({0},{1})', [(499, 0), (499, 2), (499, 4)]),
+        ('FACT({0})', [(0,), (5,), (20,)]),
+        ('FACTDOUBLE({0})', [(6,), (7,)]),
+        ('QUOTIENT({0},{1})', [(7, 2), (-7, 2)]),
+        ('MOD({0},{1})', [(7, 3), (-7, 3), (7, -3)]),
+        ('CEILING({0},{1})', [(7, 2), (-7, -2)]),
+        ('EVEN({0})', [(3,), (-3,), (0,)]),
+        ('IMREAL(COMPLEX({0},{1}))', [(3, 4), (-3, 0)]),
+    ]
+
+
 SUBS = [Rounding(), CeilFloor(), CeilFloorSmall(), IntParitySign(), QuotientMod(), Factorials(), HexRoundTrip(), BaseDecimal(),
-        BaseErrors(), Roman(), ComplexParts()]
+        BaseErrors(), Roman(), ComplexParts(), RoundWholeFloats()]
